@@ -522,6 +522,34 @@ def sec_exh_cliff1(ctx, rng, case):
     ctx.sample({"clifford_word": "".join(word) or "identity", "wire": wire, "strings": "all 16 x 4 coefficients", "moved": moved})
 
 
+def sec_doc_examples(ctx, rng, case):
+    """The worked examples in the conjugated_by docstring pin the direction (C^dag P C, not C P C^dag) independently of
+    this driver's reading of the formula; the oracle is first checked against them, then Cirq is."""
+    cirq = _S["cirq"]
+    a, b = cirq.LineQubit.range(2)
+    Sm = np.diag([1, 1j]).astype(complex)
+    cz = np.diag([1, 1, 1, -1]).astype(complex)
+    cx = G.eigen_gate("CXPow", 1)
+    h0 = np.kron(G.H, G.I2)
+    # docstring: "conjugating a +Y operation by an S operation results in a +X operation (as opposed to a -X operation)"
+    if not (close(Sm.conj().T @ G.Y @ Sm, G.X) and close(Sm.conj().T @ G.X @ Sm, -G.Y)
+            and close(cz.conj().T @ np.kron(G.X, G.I2) @ cz, np.kron(G.X, G.Z))
+            and close((cx @ h0).conj().T @ np.kron(G.X, G.I2) @ (cx @ h0), np.kron(G.Z, G.X))):
+        raise AssertionError("oracle direction disagrees with the docstring examples")
+    ex = [(cirq.Y(a), cirq.S(a), (1, {0: "X"})), (cirq.X(a), cirq.S(a), (-1, {0: "Y"})),
+          (cirq.X(a), cirq.CZ(a, b), (1, {0: "X", 1: "Z"})), (cirq.X(a), [cirq.H(a), cirq.CNOT(a, b)], (1, {0: "Z", 1: "X"}))]
+    for P, C, (c, sp) in ex:
+        got = P.conjugated_by(C)
+        ctx.check(close(ref_mat(got, [a, b]), R.smat(sp, c, 2)), "conjugation==C^dag.P.C", "C14:conjugation:docstring-example",
+                  "%s.conjugated_by(%s) = %s" % (P, C, got))
+        ctx.check(close(ref_mat(P.before(C), [a, b]), R.smat(sp, c, 2)), "conjugation==C^dag.P.C", "C14:conjugation:docstring-example", "before")
+        back = got.after(C)
+        ctx.check(close(ref_mat(back, [a, b]), ref_mat(P, [a, b])), "conjugation==C^dag.P.C", "C14:conjugation:after-undoes-before",
+                  "%s.after(C) = %s" % (got, back))
+    ctx.distinct(("doc-examples",), nontrivial=True)
+    ctx.sample({"examples": "Y by S -> +X; X by S -> -Y; X(a) by CZ -> X(a)Z(b); X(a) by [H(a), CNOT(a,b)] -> Z(a)X(b)"})
+
+
 _TWOQ = None
 
 
@@ -1294,7 +1322,10 @@ def sec_phasor(ctx, rng, case):
     # powers of the phasor scale both exponents
     t = GP.pick_exp(rng)
     pw = op ** t
-    _phasor_judge(ctx, cirq.unitary(pw), Psub, ids, m, en * t, ep * t, "phasor-unitary==closed-form", "(%r)**%r" % (op, t), dict(t=t, **wit))
+    # (exponents are kept modulo 2 in (-1, 1], so the power is taken of the canonical exponents the object reports)
+    Qsub = R.smat(sub, 1, m)
+    _phasor_judge(ctx, cirq.unitary(pw), Qsub, ids, m, float(op.exponent_neg) * t, float(op.exponent_pos) * t, "phasor-unitary==closed-form",
+                  "(%r)**%r" % (op, t), dict(t=t, **wit))
     # exponentiation of strings into rotations:  exp(i a P) through base**(i a' P) and numpy.exp
     if len(sp) >= 1 and not ids:
         a = float(rng.uniform(-3, 3))
@@ -1395,10 +1426,10 @@ def sec_pse(ctx, rng, case):
             fq = list(f.qubits)
             rr = to_ref(f.pauli_string, fq)
             alt = np.kron(alt, R.phasor(R.smat(rr[1], rr[0], len(fq)), float(f.exponent_neg), float(f.exponent_pos)))
-        mech = K_PSE_MATRIX if (len(factors) > 1 and close(got, alt)) else "C14:pse-matrix"
+        mech = K_PSE_MATRIX if L.phase_equal(got, alt, 1e-6) else "C14:pse-matrix"
         ctx.check(False, "pse-matrix()==exp(i.t.sum)", mech,
                   "PauliSumExponential.matrix() has shape %s for an operator on %d qubits %s; it is not exp(i t sum) on .qubits%s" % (
-                      got.shape, len(pq), pq, " (it is the Kronecker product of the factor matrices)" if mech == K_PSE_MATRIX else ""), **wit)
+                      got.shape, len(pq), pq, " (it is the Kronecker product of the factor matrices, each in its own qubit order)" if mech == K_PSE_MATRIX else ""), **wit)
     # non-commuting sums are rejected as documented
     if case % 8 == 0 and n >= 1:
         try:
@@ -1504,22 +1535,25 @@ def teardown(ctx):
     ctx.extra["exhaustive"] = bool(ctx.extra["exhaustive_small_pauli_pairs"] and ctx.extra["exhaustive_single_qubit_cliffords"])
 
 
+# (name, function, quick cases, thorough cases, share of the time budget); the weights follow the measured cost
+# per case so that the exhaustive sections are never truncated (quick ~26 s, thorough ~340 s of work per shard)
 SECTIONS = [
-    ("exh_pairs", sec_exh_pairs, 256, 256, 2.0),
+    ("exh_pairs", sec_exh_pairs, 256, 256, 4.0),
     ("exh_triples", sec_exh_triples, 64, 64, 1.0),
     ("exh_unary", sec_exh_unary, 16, 16, 0.5),
-    ("exh_cliff1", sec_exh_cliff1, 48, 48, 2.0),
-    ("exh_cliff2", sec_exh_cliff2, 30, 30, 1.5),
-    ("cliff2_enum", sec_cliff2_enum, 560, 11520, 2.0),
-    ("rand_cliff", sec_rand_cliff, 1400, 30000, 2.0),
-    ("rand_algebra", sec_rand_algebra, 1400, 30000, 2.0),
-    ("dense", sec_dense, 1400, 30000, 1.5),
-    ("pauli_sum", sec_pauli_sum, 700, 15000, 2.0),
-    ("boolean", sec_boolean, 280, 6000, 0.5),
-    ("expect", sec_expect, 1400, 30000, 1.5),
-    ("simulate", sec_simulate, 420, 8000, 1.5),
-    ("phasor", sec_phasor, 840, 16000, 1.5),
-    ("pse", sec_pse, 560, 10000, 1.5),
+    ("doc_examples", sec_doc_examples, 1, 1, 0.2),
+    ("exh_cliff1", sec_exh_cliff1, 48, 48, 8.0),
+    ("exh_cliff2", sec_exh_cliff2, 30, 30, 10.0),
+    ("cliff2_enum", sec_cliff2_enum, 420, N_CLIFF2, 20.0),
+    ("rand_cliff", sec_rand_cliff, 2800, 40000, 16.0),
+    ("rand_algebra", sec_rand_algebra, 4200, 60000, 5.0),
+    ("dense", sec_dense, 2800, 40000, 5.0),
+    ("pauli_sum", sec_pauli_sum, 2100, 30000, 4.5),
+    ("boolean", sec_boolean, 560, 8000, 0.5),
+    ("expect", sec_expect, 4200, 60000, 4.0),
+    ("simulate", sec_simulate, 840, 12000, 2.0),
+    ("phasor", sec_phasor, 2100, 30000, 3.0),
+    ("pse", sec_pse, 1400, 20000, 3.0),
     ("interaction", sec_interaction, 280, 4000, 0.3),
-    ("projector", sec_projector, 560, 10000, 0.7),
+    ("projector", sec_projector, 1400, 20000, 1.0),
 ]
